@@ -395,11 +395,12 @@ type LoopInvClient interface {
 }
 
 type Exec struct {
-	StrictConv bool // integer conversions that may change the value yield opaque terms
-	P        *Program
-	C        Client
-	MaxDepth int
-	MaxSteps int
+	StrictConv     bool // integer conversions that may change the value yield opaque terms
+	HavocSlicePhis bool // loop-carried slices are unknown per iteration (not accumulated lists)
+	P              *Program
+	C              Client
+	MaxDepth       int
+	MaxSteps       int
 	// statistics
 	NStates, NPaths, NForks, NLoops, NRounds, NInlined, NMerged int
 	FuncsSeen                                                   map[string]bool
@@ -1051,6 +1052,9 @@ func (x *Exec) execLoopUncached(fr *Frame, li *loopInfo, pred *ssa.BasicBlock, s
 	// body holds for an arbitrary iteration); slice-typed phis accumulate
 	// like memory cells holding lists.
 	isSlicePhi := func(ph *ssa.Phi) bool {
+		if x.HavocSlicePhis {
+			return false
+		}
 		_, ok := ph.Type().Underlying().(*types.Slice)
 		return ok
 	}
